@@ -129,7 +129,8 @@ pub struct Req {
     /// other cookies the client sends along with the session cookie: 0 none; 1 a valid cookie on the
     /// same `Cookie` line, before the session cookie; 2 a valid cookie on a header line of its own,
     /// before the session cookie's line; 3 an UNPARSABLE cookie (no value) on a line of its own before
-    /// it; 4 the same after it; 5 `=orphan` on a line of its own before it
+    /// it; 4 the same after it; 5 `=orphan` on a line of its own before it; 6 an unparsable cookie on the SAME
+    /// line, before the session cookie
     #[serde(default)]
     pub other_cookies: u8,
 }
@@ -924,6 +925,11 @@ fn run_request(w: &mut World<'_>, ri: usize, req: &Req, shape: &str) {
                     head.headers.append(http::header::COOKIE, hv("=orphan"));
                     head.headers.append(http::header::COOKIE, hv(&e.header));
                 }
+                6 => {
+                    // an unparsable cookie on the SAME line, before the session cookie
+                    head.headers.insert(http::header::COOKIE, hv(&format!("consent; {}", e.header)));
+                    w.out.count("unparsable_cookie_on_the_same_header_line", 1);
+                }
                 _ => {
                     head.headers.insert(http::header::COOKIE, hv(&e.header));
                 }
@@ -987,7 +993,7 @@ fn run_request(w: &mut World<'_>, ri: usize, req: &Req, shape: &str) {
         rm.cli = Map::new();
         rm.ids_held.clear();
     } else if presented.is_some() && incoming.is_none() {
-        w.out.violations.push(viol("C11", "cookie-roundtrip", format!("cookie not accepted back {shape}"), format!("req{ri}: the session cookie emitted earlier was not recognised when presented")));
+        w.out.violations.push(viol("C11", "cookie-roundtrip", format!("cookie not accepted back{} {shape}", if req.other_cookies == 6 { " (unparsable cookie earlier on the same header line)" } else { "" }), format!("req{ri}: the session cookie emitted earlier was not recognised when presented")));
         // disarm the statement fault armed above: nothing of it may leak into the next run of this process
         crate::gate::fail_after(None, 0);
         return;
@@ -2290,7 +2296,7 @@ impl Sim for SesSim {
         // later draw: other cookies travelling with the session cookie
         for r in reqs.iter_mut() {
             if rng.chance(1, 6) {
-                r.other_cookies = rng.usize(1, 5) as u8;
+                r.other_cookies = rng.usize(1, 6) as u8;
             }
         }
         // last draw: one C11 run in twelve is an OVERLAP scenario — two requests presenting the same
